@@ -211,4 +211,40 @@ def agree (s : Skel) (t : Tables) : Bool :=
    | [mo, x], .extent n u => near (durVal s s.mark) mo && decide (x > 0) && (scaled s n u == (x : Rat))
    | _, _ => false)
 
+/-! ## the repeat ("ditto") frame `,(d,…,d,gap|^E)*` that follows the first frame -/
+
+structure Ditto where
+  durs : List Dur
+  last : Last
+  mark : Char            -- `*` or `+`
+
+def printDitto (d : Ditto) : List Char :=
+  ',' :: '(' :: (joinC ',' (d.durs.map printDur ++ [printLast d.last]) ++ [')', d.mark])
+
+def dittoOk (s : Skel) (d : Ditto) : Bool :=
+  (printDitto d).isPrefixOf s.rest && (d.mark == '*' || d.mark == '+') && d.durs.all durOk &&
+  (match d.last with | .gap g => durOk g | .extent n _ => numOk n)
+
+def dittoPre (s : Skel) (d : Ditto) : List Rat := d.durs.map (durVal s)
+
+/-- the ditto frame the specification describes -/
+def renderDitto (s : Skel) (d : Ditto) : List Rat :=
+  dittoPre s d ++ [match d.last with
+                   | .gap g => durVal s g
+                   | .extent n u => - (scaled s n u - sumAbsQ (dittoPre s d))]
+
+def sumAbsZ (l : List Int) : Int := l.foldl (fun a x => a + (if x < 0 then -x else x)) 0
+
+/-- agreement of an emitted ditto frame with the specified one: every duration but the last within one
+    microsecond; the last within one microsecond for a plain gap, and for an extent the total frame
+    time equal to the extent within one microsecond (the emitted frame may carry a pre-computed gap) -/
+def dittoAgree (s : Skel) (d : Ditto) (z : List Int) : Bool :=
+  match z.getLast? with
+  | none => false
+  | some zl =>
+    nearL (dittoPre s d) z.dropLast &&
+    (match d.last with
+     | .gap g => near (durVal s g) zl
+     | .extent n u => decide (zl < 0) && near (scaled s n u) (sumAbsZ z))
+
 end IRModel.Irp
